@@ -151,7 +151,7 @@ func init() {
 			{Name: "keys", Run: "^TestTableKeys$", Shards: [2]int{1, 1}},
 			{Name: "members", Run: "^TestTableMembers$", Shards: [2]int{2, 4}},
 			{Name: "index", Run: "^TestTableIndex$", Shards: [2]int{2, 4}},
-			{Name: "mutation", Run: "^(TestTableReceiverMutation|TestTableAnyObjectKeyNames|TestTableObjectFieldNames|TestTableAdmittedValues|TestTableOwnKeysReach)$", Shards: [2]int{1, 1}},
+			{Name: "mutation", Run: "^(TestTableReceiverMutation|TestTableAnyObjectKeyNames|TestTableObjectFieldNames|TestTableAdmittedValues|TestTableOwnKeysReach|TestTableGetTypeKinds)$", Shards: [2]int{1, 1}},
 		}})
 }
 
